@@ -107,4 +107,9 @@ def squashRowX (cols : List String) (rows : List XRow) : List Col := squashCols 
 /-- the columns of the real result: the existing ones, in order -/
 def presentCols (l : List Col) : List (String × Cell) := (l.filter (fun c => c.2.1)).map (fun c => (c.1, c.2.2))
 
+/-- the row as the round-1 model `Seg` sees it (`h`: the table carries cn1 / cn2) -/
+def toSeg (h : Bool) (r : XRow) : Seg :=
+  { chrom := r.chrom, s := r.s, e := r.e, gene := r.gene, log2 := r.log2, probes := r.probes, weight := r.weight,
+    cn := some r.cn, cn1 := if h then some r.cn1 else none, cn2 := if h then some (r.cn - r.cn1) else none }
+
 end CnvVerif.C14Sq
